@@ -39,12 +39,14 @@ DMax == 1393200           \* 16 d 3 h: |d| is always smaller
 Breakpoints(sm) == {-sm.minA * 86400, -sm.maxA * 86400, sm.minB * 86400, sm.maxB * 86400, -sm.minC * 86400, -sm.maxC * 86400}
 TestDs(sm) == {dd \in {b + e : b \in Breakpoints(sm), e \in {-1, 0, 1}} \cup {0, 7200, -7200, 90000, -90000} : -DMax < dd /\ dd < DMax}
 Ty(off, dst) == [off |-> off, dst |-> dst, des |-> IF dst = 0 THEN <<83, 84, 68>> ELSE <<68, 83, 84>>]
-Splits == {<<0, 0, 0>>, <<0, 3600, 7200>>, <<-89999, 93599, 0>>, <<93599, -89999, 604799>>, <<3600, 0, -604799>>, <<-18000, -14400, 90000>>}
 \* rules realising difference dd: <<std offset, dst offset, end time>> from the menu, start time solved for
-SplitSeq == <<<<0, 0, 0>>, <<0, 3600, 7200>>, <<-89999, 93599, 0>>, <<93599, -89999, 604799>>, <<3600, 0, -604799>>, <<-18000, -14400, 90000>>>>
-\* three of the six splits per d (rotating with d), those whose start time stays inside the window
+SplitSeq == <<<<0, 0, 0>>, <<0, 3600, 7200>>, <<-89999, 93599, 0>>, <<93599, -89999, 604799>>, <<3600, 0, -604799>>, <<-18000, -14400, 90000>>,
+              <<-89999, 93599, -604799>>, <<0, 0, 604799>>>>
+\* half of the splits per d (rotating with d) among those whose start time stays inside the window; beyond one week, where
+\* only the extreme splits can realise d at all, every feasible one
 RulesFor(dd) == {[k |-> "alt", std |-> Ty(sp[1], 0), dst |-> Ty(sp[2], 1), sd |-> NdOf(vS), st |-> dd + sp[1] + sp[3] - sp[2], ed |-> NdOf(vE), et |-> sp[3]] :
-                    sp \in {SplitSeq[i] : i \in {j \in 1..6 : (j + dd) % 2 = 0 /\ TimeOK(dd + SplitSeq[j][1] + SplitSeq[j][3] - SplitSeq[j][2])}}}
+                    sp \in {SplitSeq[i] : i \in {j \in 1..8 : ((j + dd) % 2 = 0 \/ dd > 604800 \/ dd < -604800)
+                                                              /\ TimeOK(dd + SplitSeq[j][1] + SplitSeq[j][3] - SplitSeq[j][2])}}}
 \* derived decision = summary-based decision of Rule.tla = (on demand) the literal 400-year definition
 Agree == (vPh = 1 /\ CheckAgree) => LET sm == Summary IN \A dd \in TestDs(sm) : \A rr \in RulesFor(dd) :
            /\ DD(rr) = dd
